@@ -113,15 +113,60 @@ def overlong_into_empty(case, index):
     return sim.cur == 0
 
 
+KNOWN_LOST = "!! the most recent message is not retained (0 of "
+KNOWN_ID = "single-file-restart-loses-all"
+
+
+def _known_registered():
+    import json
+    import os
+    try:
+        d = json.load(open(os.path.join(os.path.dirname(os.path.abspath(__file__)), "..", "known_findings.d",
+                                        "logfiles.json")))
+        return any(f.get("id") == KNOWN_ID for f in d.get("findings", []))
+    except (OSError, ValueError):
+        return False
+
+
+KNOWN_REGISTERED = _known_registered()
+
+
+def single_file(case):
+    for l in case.lines:
+        w = l.split(" ")
+        if w[0] == "start" and len(w) == 4:
+            try:
+                return int(w[3]) <= 1
+            except ValueError:
+                return False
+    return False
+
+
 def judge(prop, case, impl, model):
     """an oracle failure ('!!': the property itself, evaluated on the directory) anywhere in the case wins over
-    a model/implementation difference; otherwise line-by-line equality"""
+    a model/implementation difference; otherwise line-by-line equality.  The one recorded finding
+    (`single-file-restart-loses-all`: max_gen <= 1, a restart empties the only file) is reported as an oracle
+    problem of its own - check.py matches it against known_findings.d - and the listing behind " :: " is still
+    compared with the model, so that the rest of such a case stays under the differential comparison."""
     ops = ["case " + case.cid] + case.lines
+    known = []
+    impl2 = list(impl)
     for i, op in enumerate(ops):
         a = impl[i] if i < len(impl) else None
         if a is not None and a.startswith("!!"):
-            return [Problem("oracle", case, i, op, a, model[i] if i < len(model) else None)]
-    return vlib.default_judge(case, impl, model)
+            p = Problem("oracle", case, i, op, a, model[i] if i < len(model) else None)
+            # only where the model agrees that the restart found the file full and the directory is empty now;
+            # the same oracle line with a different model answer is a different violation
+            if (KNOWN_REGISTERED and a.startswith(KNOWN_LOST) and " :: " in a and op == "restart"
+                    and single_file(case) and i < len(model) and model[i] == a.split(" :: ", 1)[1]):
+                # a kind of its own: the shrinker must not turn a genuine oracle failure of another case
+                # into this recorded one (it accepts any problem of the same kind)
+                p.kind = "known-oracle"
+                known.append(p)
+                impl2[i] = a.split(" :: ", 1)[1]
+                continue
+            return [p]
+    return known[:1] + vlib.default_judge(case, impl2, model)
 
 
 def diff_is_failure(prop, p):
